@@ -18,6 +18,8 @@ import EdzedProofs.Cron
 import EdzedModel.Gen.Constants
 import EdzedModel.Gen.TranslatedCron
 import EdzedProofs.CronTie
+import EdzedModel.Gen.TranslatedCronCfg
+import EdzedProofs.CronCfgTie
 
 namespace Edzed.Cron
 
@@ -416,7 +418,8 @@ open Edzed.Cron Edzed.Gen.TrCron
 theorem translated_cron_flag_is_model (v o : Bool) :
     (Flag_init o).1 = o ∧
     Flag_OR v o = (v || o, v || o) ∧ Flag_test_clear v = (false, v) ∧ Flag_set v o = (o, o) ∧
-    Flag_set v = (true, true) ∧ Flag_clear v = (false, false) ∧ Flag_bool v = (v, v) := by
+    Flag_set v = (true, true) ∧ Flag_clear v = (false, false) ∧ Flag_bool v = (v, v) ∧
+    Flag_AND v o = (v && o, v && o) ∧ Flag_test_set v = (true, v) ∧ Flag_invert v = (!v, !v) := by
   cases v <;> cases o <;> decide
 
 /-- the numeric constants under the names `blocklib/cron.py` uses (`_TT_OK`, `_TT_WARNING`, `_TT_ERROR`,
@@ -749,5 +752,305 @@ theorem translated_cron_timespan_reconfig_registers_alarm_times (cal : Calendar)
     · simp [ho]
     · simp only [ho, ↓reduceIte, Option.getD_none]
       intro hr; exact ho (this hr)
+
+end Edzed.TrTie
+
+/-! ## Tie by translation, second part: construction and configuration (tools/py2lean_cron_cfg.py)
+
+`Gen.TrCronCfg.*` is regenerated from `Cron.__init__/_check_tz/dtnow`, `_get_cron`,
+`TimeDate.__init__/_parse3/_export3/parse/get_state`, `TimeSpan.__init__/parse/get_state`. -/
+namespace Edzed.TrTie
+open Edzed.Cron Edzed.Gen.TrCronCfg
+
+/-- `Cron.__init__`: the SBlock constructor runs first; the service starts with the zone kind it was given, an
+    EMPTY alarm table, no queue yet (only declared: it is created in `start()`), no reload pending -/
+theorem translated_croncfg_cron_init_is_model (utc : Bool) :
+    cronInit utc = [.superInit, .setUtc utc, .setAlarmsEmpty, .declareQueue, .setNeedsReload false] := rfl
+
+/-- `Cron._check_tz` IS the model's `checkZone` -/
+theorem translated_croncfg_check_tz_is_model (u it : Bool) (z : Tz) :
+    zoneRes (checkTz u ⟨it, z⟩) = checkZone u it (zoneOf z) := check_tz_is_model u it z
+
+/-- … hence: a naive time is taken as it is by both services; a time marked UTC is accepted by the UTC service
+    only, and loses the mark; every other zone is a ValueError; a non-time a TypeError whatever its zone -/
+theorem translated_croncfg_zone_rules (u : Bool) (z : Tz) :
+    checkTz u ⟨true, .naive⟩ = .ok .asIs ∧
+    checkTz true ⟨true, .utc⟩ = .ok .stripped ∧ checkTz false ⟨true, .utc⟩ = .error .valueError ∧
+    checkTz u ⟨true, .other⟩ = .error .valueError ∧ checkTz u ⟨false, z⟩ = .error .typeError := by
+  cases u <;> cases z <;> exact ⟨rfl, rfl, rfl, rfl, rfl⟩
+
+/-- `Cron.dtnow`: the UTC service reads UTC and drops the zone, the local one reads local time – both naive,
+    so that all date/time objects stay mutually comparable -/
+theorem translated_croncfg_dtnow_is_model (u : Bool) :
+    dtnowSrc u = if u then .utcStripped else .localNaive := by cases u <;> rfl
+
+/-- `_get_cron` IS the model's `getCronM` (names `_cron_utc` / `_cron_local`, created reserved) -/
+theorem translated_croncfg_get_cron_is_model (circ : List SvcBlk) (utc : Bool) :
+    (match getCron gcPrims circ utc with | .ok r => some r | .error _ => none) = getCronM circ utc :=
+  get_cron_is_model circ utc
+
+/-- **ONE service block per time-zone kind, however many clients are created**: whatever `_get_cron(utc)` returned,
+    every later call with the same `utc` returns that very block and leaves the circuit as it is; the block is a
+    reserved Cron of that kind named `_cron_utc` / `_cron_local`; the service of the other kind is not disturbed -/
+theorem translated_croncfg_one_service_block_per_kind (circ circ' : List SvcBlk) (utc : Bool) (b : SvcBlk)
+    (h : getCron gcPrims circ utc = .ok (b, circ')) :
+    getCron gcPrims circ' utc = .ok (b, circ') ∧
+    b.name = cronName utc ∧ b.isCron = true ∧ (circ' = circ ∨ circ' = circ ++ [b]) ∧
+    circ'.find? (fun x => x.name == cronName (!utc)) = circ.find? (fun x => x.name == cronName (!utc)) := by
+  have hm : getCronM circ utc = some (b, circ') := by rw [← get_cron_is_model, h]
+  have h2 := getCronM_idempotent circ circ' utc b hm
+  obtain ⟨r1, r2, r3, _⟩ := getCronM_result circ circ' utc b hm
+  refine ⟨?_, r1, r2, r3, getCronM_other_kind circ circ' utc b hm⟩
+  have := get_cron_is_model circ' utc
+  rw [h2] at this
+  cases hg : getCron gcPrims circ' utc with
+  | ok r => simp [hg] at this; rw [this]
+  | error e => simp [hg] at this
+
+/-- non-vacuity: two TimeDate and one UTC TimeSpan in an empty circuit create exactly two service blocks -/
+example :
+    (do let (_, c1) ← getCron gcPrims [] false
+        let (_, c2) ← getCron gcPrims c1 false
+        let (_, c3) ← getCron gcPrims c2 true
+        let (_, c4) ← getCron gcPrims c3 false
+        pure (c4.map (·.name))) = (.ok ["_cron_local", "_cron_utc"] : Except GcExc (List String)) := by
+  rfl
+
+variable {TA DA SA TI DI SI TL DL SL ε : Type}
+
+/-- an optional argument: `None` stays `None`, anything else goes through the interval constructor (which may raise) -/
+def optParse {α β : Type} (f : α → Except ε β) : Option α → Except (PExc ε) (Option β)
+  | none => .ok none
+  | some a => (liftP (f a)).map some
+
+/-- `TimeDate._parse3` IS: times first, then dates, then the weekdays (None stays None; a string is converted
+    character by character, blanks and tabs skipped; the model's `normWeekdays` does the rest) – the first failure
+    in this order is the one raised -/
+theorem translated_croncfg_parse3_is_model (P : CfgPrims TA DA SA TI DI SI TL DL SL ε)
+    (t : Option TA) (d : Option DA) (w : WdArg) :
+    parse3 P t d w =
+      (match optParse P.timeInterval t with
+       | .error e => .error e
+       | .ok pt =>
+         match optParse P.dateInterval d with
+         | .error e => .error e
+         | .ok pd =>
+           match w with
+           | .none => .ok (pt, pd, none)
+           | w =>
+             match wdSeq P w with
+             | .error e => .error e
+             | .ok xs =>
+               match normWeekdays xs with
+               | some s => .ok (pt, pd, some s)
+               | none => .error .valueError) := by
+  have wd : ∀ (pt : Option TI) (pd : Option DI),
+      (match w with
+       | .none => (.ok (pt, pd, none) : Except (PExc ε) (Option TI × Option DI × Option (List Int)))
+       | weekdays =>
+         match wdSeq P weekdays with
+         | .error e => .error e
+         | .ok xs =>
+           if (!(xs.all fun x => ((decide ((0 : Int) ≤ x)) && (decide (x ≤ (7 : Int)))))) then .error .valueError
+           else .ok (pt, pd, some (Gen.TrCronCfg.setOf (xs.map fun x => (if (x == (0 : Int)) then (7 : Int) else x))))) =
+      (match w with
+       | .none => .ok (pt, pd, none)
+       | w =>
+         match wdSeq P w with
+         | .error e => .error e
+         | .ok xs =>
+           match normWeekdays xs with
+           | some s => .ok (pt, pd, some s)
+           | none => .error .valueError) := by
+    intro pt pd
+    cases w with
+    | none => rfl
+    | str cs =>
+      simp only []
+      cases wdSeq P (.str cs) with
+      | error e => rfl
+      | ok xs =>
+        simp only [normWeekdays, setOf_eq_intSet]
+        cases hv : (xs.all fun x => decide (0 ≤ x) && decide (x ≤ 7)) <;> simp [hv]
+    | seq ys =>
+      simp only []
+      cases wdSeq P (.seq ys) with
+      | error e => rfl
+      | ok xs =>
+        simp only [normWeekdays, setOf_eq_intSet]
+        cases hv : (xs.all fun x => decide (0 ≤ x) && decide (x ≤ 7)) <;> simp [hv]
+  unfold parse3 optParse
+  cases t with
+  | none =>
+    cases d with
+    | none => simp only [pure, Except.pure]; exact wd none none
+    | some db =>
+      cases h2 : P.dateInterval db with
+      | error e => simp [liftP, Except.map, pure, Except.pure, h2]
+      | ok y => simp only [liftP, Except.map, pure, Except.pure, h2]; exact wd none (some y)
+  | some ta =>
+    cases h1 : P.timeInterval ta with
+    | error e => simp [liftP, Except.map, h1]
+    | ok x =>
+      cases d with
+      | none => simp only [liftP, Except.map, pure, Except.pure, h1]; exact wd (some x) none
+      | some db =>
+        cases h2 : P.dateInterval db with
+        | error e => simp [liftP, Except.map, h1, h2]
+        | ok y => simp only [liftP, Except.map, h1, h2]; exact wd (some x) (some y)
+
+/-- the characters of a weekday string: blank and tab are skipped, every other character goes through `int()` -/
+theorem translated_croncfg_weekday_string (P : CfgPrims TA DA SA TI DI SI TL DL SL ε) (s : List Char) :
+    wdSeq P (.str s) = (s.filter fun c => c != ' ' && c != '\t').mapM fun c => liftP (P.intOfChar c) := by
+  simp only [wdSeq]
+  congr 1
+  apply List.filter_congr
+  intro c _
+  by_cases h1 : c = ' ' <;> by_cases h2 : c = '\t' <;> simp [h1, h2]
+
+/-- weekday numbers: anything outside 0..7 is a ValueError, 0 and 7 both mean Sunday (stored as 7), the stored
+    set is canonical -/
+theorem translated_croncfg_weekday_rules (P : CfgPrims TA DA SA TI DI SI TL DL SL ε) (xs : List Int) :
+    (parse3 P none none (.seq xs) =
+      match normWeekdays xs with
+      | some s => .ok (none, none, some s)
+      | none => .error .valueError) ∧
+    parse3 P none none (.seq [0, 7, 3, 7]) = .ok (none, none, some [3, 7]) ∧
+    (match parse3 P none none (.seq [1, 8]) with | .error .valueError => True | _ => False) := by
+  refine ⟨?_, by rfl, by simp [parse3, wdSeq, pure, Except.pure]⟩
+  rw [translated_croncfg_parse3_is_model]; rfl
+
+/-- `_export3`, `parse`, `get_state` -/
+theorem translated_croncfg_export_is_model (P : CfgPrims TA DA SA TI DI SI TL DL SL ε)
+    (t : Option TI) (d : Option DI) (w : Option (List Int)) :
+    export3 P t d w = (t.map P.timesAsList, d.map P.datesAsList, w.map intSet) ∧
+    tdGetState P t d w = export3 P t d w := by
+  refine ⟨?_, rfl⟩
+  unfold export3; cases w <;> simp [setOf_eq_intSet]
+
+theorem translated_croncfg_parse_is_export_of_parse3 (P : CfgPrims TA DA SA TI DI SI TL DL SL ε)
+    (t : Option TA) (d : Option DA) (w : WdArg) :
+    tdParse P t d w = (parse3 P t d w).map fun r => export3 P r.1 r.2.1 r.2.2 := by
+  unfold tdParse; cases parse3 P t d w <;> rfl
+
+/-- the exported weekdays as an argument again -/
+def wdArgOf : Option (List Int) → WdArg
+  | none => .none
+  | some s => .seq s
+
+/-- **get_state / parse round trip**: whatever configuration `_parse3` produced, exporting it (`get_state`) and
+    parsing the export again gives the same configuration – provided the interval classes accept their own
+    `as_list()` output (`hT`, `hD`: C13's `asList_roundtrip`) -/
+theorem translated_croncfg_export_parse_roundtrip (P : CfgPrims TA DA SA TI DI SI TL DL SL ε)
+    (tArg : TL → TA) (dArg : DL → DA)
+    (hT : ∀ x, P.timeInterval (tArg (P.timesAsList x)) = .ok x)
+    (hD : ∀ x, P.dateInterval (dArg (P.datesAsList x)) = .ok x)
+    (t : Option TA) (d : Option DA) (w : WdArg) (cfg : Option TI × Option DI × Option (List Int))
+    (h : parse3 P t d w = .ok cfg) :
+    parse3 P ((export3 P cfg.1 cfg.2.1 cfg.2.2).1.map tArg) ((export3 P cfg.1 cfg.2.1 cfg.2.2).2.1.map dArg)
+      (wdArgOf (export3 P cfg.1 cfg.2.1 cfg.2.2).2.2) = .ok cfg := by
+  obtain ⟨ct, cd, cw⟩ := cfg
+  -- the weekdays of a parsed configuration are a fixed point of the normalisation
+  have hw : ∀ s, cw = some s → normWeekdays s = some s := by
+    intro s hs
+    rw [translated_croncfg_parse3_is_model] at h
+    cases h1 : optParse P.timeInterval t with
+    | error e => simp [h1] at h
+    | ok pt =>
+      cases h2 : optParse P.dateInterval d with
+      | error e => simp [h1, h2] at h
+      | ok pd =>
+        simp only [h1, h2] at h
+        cases w with
+        | none => simp at h; simp_all
+        | str cs =>
+          simp only [] at h
+          cases h3 : wdSeq P (.str cs) with
+          | error e => simp [h3] at h
+          | ok xs =>
+            simp only [h3] at h
+            cases h4 : normWeekdays xs with
+            | none => simp [h4] at h
+            | some s' =>
+              simp only [h4, Except.ok.injEq, Prod.mk.injEq] at h
+              have : s' = s := by simp_all
+              exact normWeekdays_fixed xs s (this ▸ h4)
+        | seq ys =>
+          simp only [] at h
+          have h3 : wdSeq P (.seq ys) = .ok ys := rfl
+          simp only [h3] at h
+          cases h4 : normWeekdays ys with
+          | none => simp [h4] at h
+          | some s' =>
+            simp only [h4, Except.ok.injEq, Prod.mk.injEq] at h
+            have : s' = s := by simp_all
+            exact normWeekdays_fixed ys s (this ▸ h4)
+  rw [translated_croncfg_parse3_is_model]
+  have e1 : optParse P.timeInterval ((export3 P ct cd cw).1.map tArg) = .ok ct := by
+    cases ct <;> simp [export3, optParse, hT, liftP, Except.map]
+  have e2 : optParse P.dateInterval ((export3 P ct cd cw).2.1.map dArg) = .ok cd := by
+    cases cd <;> simp [export3, optParse, hD, liftP, Except.map]
+  simp only [e1, e2]
+  cases cw with
+  | none => rfl
+  | some s =>
+    have hs := hw s rfl
+    have hss : intSet s = s := by
+      unfold normWeekdays at hs
+      split at hs
+      · have : SSorted s := by
+          have := Option.some.inj hs
+          rw [← this]; exact intSet_sorted _
+        exact intSet_of_sorted s this
+      · cases hs
+    simp only [export3, Option.map_some, wdArgOf, setOf_eq_intSet, hss]
+    have h3 : wdSeq P (.seq s) = .ok s := rfl
+    simp only [h3, hs]
+
+/-- **the configuration given to the constructor = the configuration a `reconfig` event with the same arguments
+    installs**: the constructor stores `initdef = parse(args) = export(parse3(args))`; initialisation hands it to
+    `init_from_value` = `_event_reconfig(**initdef)` (`translated_cron_reconfig_defaults`), which parses it again –
+    and arrives at `parse3(args)`, the configuration a direct `reconfig(args)` installs -/
+theorem translated_croncfg_init_config_is_reconfig_config (P : CfgPrims TA DA SA TI DI SI TL DL SL ε)
+    (tArg : TL → TA) (dArg : DL → DA)
+    (hT : ∀ x, P.timeInterval (tArg (P.timesAsList x)) = .ok x)
+    (hD : ∀ x, P.dateInterval (dArg (P.datesAsList x)) = .ok x)
+    (t : Option TA) (d : Option DA) (w : WdArg) (initdef : Option TL × Option DL × Option (List Int))
+    (h : tdParse P t d w = .ok initdef) :
+    parse3 P (initdef.1.map tArg) (initdef.2.1.map dArg) (wdArgOf initdef.2.2) = parse3 P t d w := by
+  rw [translated_croncfg_parse_is_export_of_parse3] at h
+  cases hp : parse3 P t d w with
+  | error e => simp [hp, Except.map] at h
+  | ok cfg =>
+    simp only [hp, Except.map, Except.ok.injEq] at h
+    rw [← h]
+    exact translated_croncfg_export_parse_roundtrip P tArg dArg hT hD t d w cfg hp
+
+/-- non-vacuity: with intervals that are their own list form, `weekdays="1 0 7"` is Monday and Sunday, exported as
+    `[1, 7]`, and parsing `[1, 7]` gives the same set -/
+example :
+    let P : CfgPrims Nat Nat Nat Nat Nat Nat Nat Nat Nat Unit :=
+      { timeInterval := .ok, dateInterval := .ok, dtInterval := .ok, timesAsList := id, datesAsList := id,
+        spanAsList := id, intOfChar := fun c => if c.isDigit then .ok (c.toNat - 48) else .error () }
+    tdParse P (some 5) none (.str ['1', ' ', '0', '\t', '7']) = .ok (some 5, none, some [1, 7]) ∧
+    parse3 P (some 5) none (.seq [1, 7]) = .ok (some 5, none, some [1, 7]) := by
+  exact ⟨rfl, rfl⟩
+
+/-- `TimeSpan.parse` / `get_state`, and their round trip under the same kind of hypothesis -/
+theorem translated_croncfg_timespan_parse_is_model (P : CfgPrims TA DA SA TI DI SI TL DL SL ε) (sArg : SL → SA)
+    (hS : ∀ x, P.dtInterval (sArg (P.spanAsList x)) = .ok x) (span : SA) (x : SI) :
+    tsParse P span = (liftP (P.dtInterval span)).map P.spanAsList ∧ tsGetState P x = P.spanAsList x ∧
+    tsParse P (sArg (tsGetState P x)) = .ok (P.spanAsList x) := by
+  refine ⟨rfl, rfl, ?_⟩
+  simp [tsParse, tsGetState, hS, liftP, Except.map]
+
+/-- the constructors: the service block is obtained FIRST, the configuration attributes start empty, `initdef=` is
+    refused with TypeError before anything is parsed, the configuration is parsed into `initdef` (a bad one fails
+    here, in the constructor), and only then the SBlock constructor runs with that `initdef` -/
+theorem translated_croncfg_client_init_is_model :
+    tdInit = [.getCron, .clearTimes, .clearDates, .clearWeekdays, .refuseInitdef, .computeInitdef, .superInit] ∧
+    tsInit = [.getCron, .emptySpan, .refuseInitdef, .computeInitdef, .superInit] ∧
+    tdInitDefaults = [("times", "None"), ("dates", "None"), ("weekdays", "None"), ("utc", "False")] ∧
+    tsInitDefaults = [("span", "()"), ("utc", "False")] := ⟨rfl, rfl, rfl, rfl⟩
 
 end Edzed.TrTie
